@@ -51,6 +51,8 @@ type StopCase struct {
 	// returned, the harness waits until it has before it calls Error(): an expired context of the caller does not
 	// change why the stream ended
 	LateDeadlineMs int `json:",omitempty"`
+	// Chop != 0: the master's bytes arrive in pieces (see fakemaster.ConnPlan.Chop)
+	Chop uint32 `json:",omitempty"`
 }
 
 // StopObs is everything observed.
@@ -199,7 +201,7 @@ func runStop(c *StopCase) *StopObs {
 	}
 	var cancelled, quiet int32
 	doCancel := func() { atomic.StoreInt32(&cancelled, 1); atomic.StoreInt32(&quiet, 1); cancel() }
-	plan := &fakemaster.ConnPlan{}
+	plan := &fakemaster.ConnPlan{Chop: c.Chop}
 	var stRef atomic.Value
 	handlerBlocked := int32(0)
 
